@@ -170,7 +170,8 @@ def filterForCertificate (suites : List Nat) (cred : Option Cred) : List Nat :=
     match cred with
     | none => tls13Suites ++ srpSuites ++ anonSuites ++ ecdhAnonSuites
     | some c =>
-      let a := tls13Suites ++ (if c.certAlg == "rsa" || c.certAlg == "rsa-pss" then certAllSuites else [])
+      -- (the SRP suites without server authentication do not use the certificate)
+      let a := tls13Suites ++ srpSuites ++ (if c.certAlg == "rsa" || c.certAlg == "rsa-pss" then certAllSuites else [])
       -- symmetric_difference_update(certSuites)
       let a := if c.certAlg == "rsa-pss" then
                  a.filter (fun s => !certSuites.contains s) ++ certSuites.filter (fun s => !a.contains s)
@@ -458,8 +459,12 @@ def pskPrfs (ss : Settings) (o : Offer) (v : Nat) : List String :=
     (ss.pskConfigs.filter fun p => o.pskIds.any (·.1 == p.1)).map fun p => if p.2 == "" then "sha256" else p.2
   else []
 
-def prfFiltered (ss : Settings) (o : Offer) (v : Nat) (ciphers : List Nat) : List Nat :=
-  if (pskPrfs ss o v).isEmpty then ciphers else filterForPrfs ciphers (pskPrfs ss o v)
+def prfFiltered (ss : Settings) (o : Offer) (v : Nat) (cred : Option Cred) (ciphers : List Nat) : List Nat :=
+  if (pskPrfs ss o v).isEmpty then ciphers
+  else
+    -- when no PSK fits a cipher offered by the client, fall back to the certificate (RFC 8446, 4.2.11)
+    if cred.isNone || (filterForPrfs ciphers (pskPrfs ss o v)).any (o.suites.contains ·)
+    then filterForPrfs ciphers (pskPrfs ss o v) else ciphers
 
 /-- ECDSA certificate: curve compatibility with the client's groups -/
 def checkServerCurve (sc : ServerCfg) (o : Offer) (v : Nat) : Outcome Unit :=
@@ -480,7 +485,7 @@ def certUsable (suites : List Nat) (cred : Option Cred) (v : Nat) : List Nat :=
 /-- `_server_select_certificate` with a single (cert, key) pair: suite and signature scheme -/
 def selectCertificate (ss : Settings) (sc : ServerCfg) (o : Offer) (suites : List Nat) (v : Nat) :
     Outcome (Nat × Nat) :=
-  match (prfFiltered ss o v (certUsable suites sc.cred v)).find? (o.suites.contains ·) with
+  match (prfFiltered ss o v sc.cred (certUsable suites sc.cred v)).find? (o.suites.contains ·) with
   | none =>
     if (o.groups.getD []).any (fun g => 256 ≤ g && g < 512) && o.suites.any (dhAllSuites.contains ·)
     then Outcome.alert .server "insufficient_security"
@@ -856,6 +861,18 @@ def negotiate (cs ss : Settings) (cc : ClientCfg) (sc : ServerCfg) : Outcome Par
   let sel ← serverSelect ss sc o
   let p ← clientAccept cs cc sc o sel
   serverFinish ss sel p
+
+/-- the settings `_handshakeClientAsyncHelper` goes on with: `validate()` and, for the SRP and anonymous
+    flavours (no such suites in TLS 1.3), maxVersion capped at TLS 1.2 and (3,4) removed from `versions`.
+    (minVersion above TLS 1.2 with these flavours is a ValueError before anything is sent: a caller error.) -/
+def effectiveClient (cs : Settings) (fl : ClientFlavour) : Settings :=
+  if fl != .cert && cs.maxVersion > 3 then
+    { cs with maxVersion := 3, versions := cs.versions.filter (· < 4) }
+  else cs
+
+/-- negotiation as started by the handshake functions of the given flavour -/
+def negotiateFor (cs ss : Settings) (cc : ClientCfg) (sc : ServerCfg) : Outcome Params :=
+  negotiate (effectiveClient cs cc.flavour) ss cc sc
 
 /-! ## the two endpoints' views of a completed handshake -/
 
